@@ -97,6 +97,22 @@ CLAIMED.update({
         ref='DESIGN.md 3/C15'),
 })
 
+CLAIMED.update({
+    'C09': dict(
+        text='The collector (_build_input_batches, three nested loops under the shared read lock), the batch consumer (_get_input_batch on a ghost clock), both get_input '
+             'generators and both worker main loops are proved: only genuine inputs reach the buffer/call (exception values and preprocess failures are short-circuited under '
+             'their own uid), each item taken is dispatched exactly once, batches have 1..b consecutive items with no end marker inside, a partial batch is released at the '
+             'deadline, and the collector cannot lose its wake-up (predicate tested under the waiting lock) -- the pinned tree failed that obligation (fixed: 108611a).',
+        technique='contract-based deductive verification: pyvc VCs with nested loop invariants, index-based histories, ghost clock, condition-wait obligation, z3',
+        ref='DESIGN.md 3/C09'),
+    'C17': dict(
+        text='The effect of each IterableQueue operation on the token counters and end markers (order and atomicity of its actions) is proved on the real code -- in particular '
+             'that the token move and the completion test are one atomic step under the lids lock -- and a lemma over these effects gives the protocol invariant (one extra '
+             'marker per round, removed by renew, nothing leaks); ResponsiveQueue is proved to slice every blocking call and poll the stop event before blocking again.',
+        technique='contract-based deductive verification: pyvc effect contracts under interference + counter-invariant lemma, z3',
+        ref='DESIGN.md 3/C17'),
+})
+
 PENDING = 'check under construction (see DESIGN.md section 3)'
 NA = {}
 
